@@ -74,7 +74,7 @@ Proof. exact accepted_one_status. Qed.
 Example C03_example :
   serve [HNormal [ANext; ANext] []; HNormal [AWriteHeader 201] []; HNormal [] []; HNormal [] []] None false true None
   = Done (mkst 3 201 [] false
-      [Enter 0 0 false; NextCall 0; Enter 1 0 false; Sent; Exit 1; NextRet 0; NextCall 0; Enter 2 201 false; Exit 2; NextRet 0; Exit 0] None).
+      [Enter 0 0 false; NextCall 0; Enter 1 0 false; Sent; Exit 1; NextRet 0; NextCall 0; Enter 2 201 false; Exit 2; NextRet 0; Exit 0] None false).
 Proof. vm_compute. reflexivity. Qed.
 
 Redirect "assum/C03.1" Print Assumptions C03_trace_accepted.
